@@ -482,7 +482,8 @@ theorem C07_load_iff_wellformed_counterexample_directive :
     positioned field types, interfaces that are interfaces, union members that are objects, existing
     roots, transitively declared interfaces, no empty object/interface/input/enum, no reserved type,
     field or ENUM VALUE names, at most one `schema` block, every root operation type given at most ONCE,
-    extensions of the base's kind, and no enum value named `true`/`false`/`null`.
+    extensions of the base's kind, no enum value named `true`/`false`/`null`, and OBJECT types as root
+    operation types (declared or inferred).
     (`hext`: extensions are not `builtIn` — the prelude has none.)
     `implementsFieldsOK` is `C07_load_sound_implementsFields`, the directive clauses are
     `C07_load_sound_directives`, all 27 clauses together `C07_load_sound` (below). -/
